@@ -159,6 +159,12 @@ def replay_coll(recs):
         variants = [("PolygonCollection.area", np.asarray(pc.area)),
                     ("PolygonCollection[i].area", np.array([float(pc[i].area) for i in range(len(recs))])),
                     ("iter(PolygonCollection).area", np.array([float(p.area) for p in pc]))]
+        n2 = (len(recs) // 2) * 2
+        if n2 >= 4:          # two collection axes (2 x n/2)
+            pc2 = g.PolygonCollection(arr[:n2].reshape((2, n2 // 2) + arr.shape[1:]))
+            a2 = np.asarray(pc2.area)
+            variants.append(("PolygonCollection.area/two-axes", np.concatenate([a2.reshape(-1), exp[n2:]]) if a2.shape == (2, n2 // 2) else np.full(len(recs), np.nan)))
+            variants.append(("PolygonCollection[i][j].area/two-axes", np.concatenate([np.array([float(pc2[i][j].area) for i in range(2) for j in range(n2 // 2)]), exp[n2:]])))
         if dim == 3:
             ph = g.Polyhedron(arr)
             variants += [("Polyhedron.faces.area", np.asarray(ph.faces.area)),
